@@ -39,7 +39,7 @@ class PipeStall(Exception):
     """A task blocked writing to its stdout/stderr because Conductor stopped reading the pipe."""
 
 
-def _write_all(fd, chunk, timeout=3.0):
+def _write_all(fd, chunk, timeout=8.0):
     """Write like a child process would (blocking), but give up when nobody drains the pipe."""
     import select
     import time as _t
